@@ -3,5 +3,7 @@
 (* to completion and one run per crash point (site, n) = "kill the process   *)
 (* at the n-th passage of hook site".                                        *)
 EXTENDS InPlace, InPlaceConfigs, Json
-Emit == alive \/ PrintT(ToJson([sc |-> sc, crash |-> exit = "killed", site |-> last, n |-> IF last = "none" THEN 0 ELSE cnt[last]]))
+\* (with MaxRuns = 2: one line per pair of runs, prev naming how and where the first one ended)
+Emit == alive \/ run < MaxRuns
+        \/ PrintT(ToJson([sc |-> sc, crash |-> exit = "killed", site |-> last, n |-> IF last = "none" THEN 0 ELSE cnt[last], prev |-> prev]))
 =============================================================================
